@@ -23,7 +23,7 @@ type (
 func WithTTL(ctx context.Context, ttl time.Duration, updateExisting bool) context.Context {
 	if updateExisting {
 		if existing, ok := ctx.Value(ttlCtxKey{}).(*time.Duration); ok {
-			if *existing == 0 || *existing > ttl {
+			if ttl != 0 && (*existing == 0 || *existing > ttl) {
 				*existing = ttl
 			}
 
